@@ -751,9 +751,15 @@ func (e *SpecEnv) call(n SCall) (Term, error) {
 		}
 		tag := vc.typeTag(t.T)
 		fn := fmt.Sprintf("box_%d", tag)
-		if !vc.dset[fn+"!ax"] {
-			vc.declare(fmt.Sprintf("(declare-fun %s (%s) Int) ; %s", fn, t.Sort, typeKey(t.T)), fn)
-			un := vc.unboxFn(t.Sort)
+		vc.declare(fmt.Sprintf("(declare-fun %s (%s) Int) ; %s", fn, t.Sort, typeKey(t.T)), fn)
+		un := vc.unboxFn(t.Sort)
+		if e.nbound == 0 {
+			// ground use: the instance suffices (keeps the vacuity (sat) queries quantifier-free where possible)
+			if k := fn + "!" + t.S; !vc.dset[k] {
+				vc.dset[k] = true
+				vc.global(fmt.Sprintf("(and (> (%s %s) 0) (= (typeof (%s %s)) %d) (= (%s (%s %s)) %s))", fn, t.S, fn, t.S, tag, un, fn, t.S, t.S))
+			}
+		} else if !vc.dset[fn+"!ax"] {
 			vc.dset[fn+"!ax"] = true
 			vc.global(fmt.Sprintf("(forall ((bx %s)) (! (and (> (%s bx) 0) (= (typeof (%s bx)) %d) (= (%s (%s bx)) bx)) :pattern ((%s bx))))", t.Sort, fn, fn, tag, un, fn, fn))
 		}
@@ -931,6 +937,7 @@ func (vc *VC) resolveLocal(name string, at *ssa.BasicBlock, heap Heap, phiOverri
 	var best ssa.Value
 	bestPos := -1
 	bestAddr := false
+	others := map[ssa.Value]bool{}
 	consider := func(v ssa.Value, b *ssa.BasicBlock, idx int, isAddr bool) {
 		if b != at && !b.Dominates(at) {
 			return
@@ -957,8 +964,24 @@ func (vc *VC) resolveLocal(name string, at *ssa.BasicBlock, heap Heap, phiOverri
 				}
 			case *ssa.DebugRef:
 				if id, ok := x.Expr.(*ast.Ident); ok && id.Name == name {
+					if c, isC := x.X.(*ssa.Const); isC && c.Value == nil && x.Object() != nil && id.Pos() == x.Object().Pos() {
+						// go/ssa records the zero value at the defining occurrence of `v := <composite literal>`;
+						// the variable's value is the literal built right after it
+						continue
+					}
 					consider(x.X, b, i, x.IsAddr)
+					if !x.IsAddr {
+						others[x.X] = true
+					}
 				}
+			}
+		}
+	}
+	if best == nil && len(others) == 1 {
+		// never reassigned: every reference sees the same SSA value; usable wherever its definition dominates
+		for v := range others {
+			if ins, ok := v.(ssa.Instruction); ok && ins.Block() != nil && (ins.Block() == at || ins.Block().Dominates(at)) {
+				best = v
 			}
 		}
 	}
